@@ -27,10 +27,13 @@ CONSTANTS ModeSet, IvIds, LenSet, MaxOps
 VARIABLES iv, hist
 Init == iv = 0 /\ hist = <<>>         \* IV id 0 = the initial all-zero IV
 OpSetIV(i) == iv' = i /\ hist' = Append(hist, [op |-> "setiv", iv |-> i])
+\* SetIV with a value that is not 16 bytes long (n = its length) is refused and changes nothing
+OpSetIVBad(n) == UNCHANGED iv /\ hist' = Append(hist, [op |-> "setiv_bad", n |-> n])
 OpEnc(m, n, cap) == UNCHANGED iv /\ hist' = Append(hist, [op |-> "enc", mode |-> m, len |-> n, cap |-> cap, iv |-> iv])
 OpDec(m, n) == UNCHANGED iv /\ hist' = Append(hist, [op |-> "dec", mode |-> m, len |-> n, iv |-> iv])
 Next == /\ Len(hist) < MaxOps
         /\ \/ \E i \in IvIds : OpSetIV(i)
+           \/ \E n \in {0, 8, 15, 17, 32} : OpSetIVBad(n)
            \/ \E m \in ModeSet, n \in LenSet, c \in BOOLEAN : OpEnc(m, n, c)
            \/ \E m \in ModeSet, n \in LenSet : OpDec(m, n)
 Spec == Init /\ [][Next]_<<iv, hist>>
